@@ -13,7 +13,9 @@ class Artifacts:
     for cc in filter(lambda c: sum([self.segment(sn).try_get_length() \
                      for sn in c]) < minlen, self.connected_components()):
       for s in cc:
-        self.rm(s)
+        # (a placeholder segment goes away with the last line referring to it)
+        if s.is_connected():
+          self.rm(s)
 
   def remove_dead_ends(self, minlen):
     """Remove dead end segments from the graph.
